@@ -321,7 +321,9 @@ func main() {
 					path := filepath.Join(outDir, fmt.Sprintf("cex_%d.json", cexN))
 					cx := writeCex(path, *prop, r, ob)
 					note := ""
-					if !*noReplay {
+					if cx.Ghost {
+						note = " replay=none(ghost-parametrised obligation over contracts: the refuted polynomial identity or bound is the finding)"
+					} else if !*noReplay {
 						// exact replay first; for abstract models (contract outputs / loop-cut states chosen by the
 						// solver) the real code runs on the model's inputs, then a native search anchored at them
 						search := 0
